@@ -9,6 +9,7 @@ package main
 // replace the real delivery, which still goes through real IBC core in the next block.
 
 import (
+	"os"
 	"fmt"
 	"math/big"
 	"regexp"
@@ -140,7 +141,9 @@ func (s *Sim) runVariant(name string, edit shadowEdit, withStores bool, cb func(
 				if strings.Contains(v.Panic, "out of gas") {
 					v.Panic = "out of gas"
 				}
-				_ = debug.Stack
+				if os.Getenv("VERIF_STACK") != "" {
+					fmt.Printf("panic in variant %s: %v\n%s\n", name, r, debug.Stack())
+				}
 			}
 		}()
 		v.Ack, v.Success = cb(cc)
@@ -240,9 +243,17 @@ func (s *Sim) runShadows(p *Pkt) *shadowResult {
 				s.setBalance(ctx, orb, d, s.N.App.BankKeeper.GetBalance(ctx, orb, d).Amount.Add(amt))
 			}
 			if in.Native == DenomHuge && p.Seq%2 == 0 {
-				// a prior balance beyond 64 bits (throw-away branch: the supply is not adjusted)
+				// a prior balance beyond 64 bits, taken from whoever holds that much (supply-neutral: with coins out of
+				// thin air the balances of a run could add up to more than a 256-bit integer holds, which no chain can reach)
 				big, _ := sdkmath.NewIntFromString("18446744073709551629")
-				s.setBalance(ctx, orb, DenomHuge, s.N.App.BankKeeper.GetBalance(ctx, orb, DenomHuge).Amount.Add(big))
+				for _, n := range s.Env.AcctNames {
+					a := s.Env.Accts[n].Addr
+					if have := s.N.App.BankKeeper.GetBalance(ctx, a, DenomHuge).Amount; have.GTE(big) {
+						s.setBalance(ctx, a, DenomHuge, have.Sub(big))
+						s.setBalance(ctx, orb, DenomHuge, s.N.App.BankKeeper.GetBalance(ctx, orb, DenomHuge).Amount.Add(big))
+						break
+					}
+				}
 			}
 			return nil
 		}, false, s.recvCB(full, pkt, rel))
